@@ -35,6 +35,7 @@
 
 #include "EbDecInverseQuantize.h"
 #include "EbLog.h"
+#include "EbVerifHooks.h"
 
 #include "EbUtility.h"
 
@@ -460,6 +461,7 @@ void svt_av1_queue_parse_jobs(EbDecHandle *dec_handle_ptr, TilesInfo *tiles_info
                                      sb_size_h - 1) /
         sb_size_h;
 
+    SVT_VERIF_EV("dec", dec_handle_ptr, "FrmRst", picture_height_in_sb, tiles_info->tile_cols, tiles_info->tile_rows);
     EB_MEMSET(dec_mt_frame_data->sb_recon_row_map,
               0,
               picture_height_in_sb * tiles_info->tile_cols * sizeof(uint32_t));
@@ -873,6 +875,7 @@ void dec_av1_loop_filter_frame_mt(EbDecHandle *dec_handle, EbPictureBufferDesc *
 #if MT_WAIT_PROFILE
             dec_display_timer("LFWR", &timer, th_cnt, fp);
 #endif
+            SVT_VERIF_EV("dec", dec_handle, "LfBeg", sb_row);
             if (!dec_handle->frame_header.allow_intrabc) {
                 if (dec_handle->frame_header.loop_filter_params.filter_level[0] ||
                     dec_handle->frame_header.loop_filter_params.filter_level[1]) {
@@ -880,6 +883,7 @@ void dec_av1_loop_filter_frame_mt(EbDecHandle *dec_handle, EbPictureBufferDesc *
                         dec_handle, recon_picture_buf, lf_ctxt, sb_row, plane_start, plane_end);
                 }
             }
+            SVT_VERIF_EV("dec", dec_handle, "LfEnd", sb_row);
 
             /* Store LR_save_boundary_lines at 64 lines : After LF         */
             /* Store Above 64 line always, for SB 128 store Middle 64 also */
@@ -890,6 +894,7 @@ void dec_av1_loop_filter_frame_mt(EbDecHandle *dec_handle, EbPictureBufferDesc *
                     dec_handle, tile_rect_p, sb_row - 1, src, stride, num_planes);
 
                 /* Update LF done map */
+                SVT_VERIF_EV("dec", dec_handle, "LfMap", sb_row - 1);
                 dec_mt_frame_data1->lf_row_map[sb_row - 1] = 1;
             }
             if (sb_row == dec_mt_frame_data->sb_rows - 1) {
@@ -897,6 +902,7 @@ void dec_av1_loop_filter_frame_mt(EbDecHandle *dec_handle, EbPictureBufferDesc *
                     dec_handle, tile_rect_p, sb_row, src, stride, num_planes);
 
                 /* Update LF done map */
+                SVT_VERIF_EV("dec", dec_handle, "LfMap", sb_row);
                 dec_mt_frame_data1->lf_row_map[sb_row] = 1;
             }
         } else
@@ -1018,6 +1024,7 @@ void svt_cdef_frame_mt(EbDecHandle *dec_handle_ptr, DecThreadCtxt *thread_ctxt) 
             while (!*start_cdef)
                 ;
             assert(*start_cdef == 1);
+            SVT_VERIF_EV("dec", dec_handle_ptr, "CdBeg", sb_row);
 #if MT_WAIT_PROFILE
             dec_display_timer("CWLF", &timer, th_cnt, fp);
 #endif
@@ -1056,6 +1063,7 @@ void svt_cdef_frame_mt(EbDecHandle *dec_handle_ptr, DecThreadCtxt *thread_ctxt) 
                 }
             }
             /* Update CDEF done map */
+            SVT_VERIF_EV("dec", dec_handle_ptr, "CdEnd", sb_row);
             dec_mt_frame_data1->cdef_completed_for_row_map[sb_row] = 1;
 
         } else
@@ -1243,6 +1251,7 @@ void dec_av1_loop_restoration_filter_frame_mt(EbDecHandle *dec_handle, DecThread
                 (volatile int32_t *)&dec_mt_frame_data->cdef_completed_for_row_map[sb_row];
             while (!*start_lr)
                 ;
+            SVT_VERIF_EV("dec", dec_handle, "LrBeg", sb_row);
 
             LrCtxt *lr_ctxt = (LrCtxt *)dec_handle->pv_lr_ctxt;
 
@@ -1301,6 +1310,7 @@ void dec_av1_loop_restoration_filter_frame_mt(EbDecHandle *dec_handle, DecThread
                         sy);
 
             /* Update LR done map */
+            SVT_VERIF_EV("dec", dec_handle, "LrEnd", sb_row);
             dec_mt_frame_data->lr_row_map[sb_row] = 1;
         } else
             break;
